@@ -69,6 +69,16 @@ PROP = {
         "comparison with integer-typed expressions is generated (the spec keeps the order key of the bit pattern, it has no floating-point "
         "semantics); a double holding an integer is shown as that integer",
         "integer literals and stored values are exactly representable as f64 (the lexer reads numbers as f64)",
+        "SQL text: BETWEEN bounds are printed with minimal parentheses (a bound may be a comparison: x BETWEEN a AND b = c); the aliases of "
+        "the FROM operands go through identifier forms with non-ASCII letters, underscores, digits and both cases (identifiers are case "
+        "sensitive); a `-- comment` ending in a line break is written before WHERE in a share of the statements",
+        "a derived table that is a top-level operand of FROM is written in place or as a common table expression (WITH w AS (…) … FROM w AS r; "
+        "the same CTE may be used twice; a CTE may carry the name of a table of the database that the statement does not read); the "
+        "model treats a CTE as its derived table; recursive CTEs and CTEs inside sub-queries are outside the grammar",
+        "INSERT is generated with and without a column list (a permutation of a subset of the columns; unlisted columns become NULL - "
+        "column DEFAULTs are not declared by the harness; the engine never applies them, see the report); a third of the listed INSERTs "
+        "are ill-formed (too few / too many values, duplicate or unknown column) and must answer a bind error and change nothing: "
+        "after a statement rejected by the parser or binder the comparison of the case goes on",
         "what a failed INSERT/UPDATE/DELETE leaves behind is C03: statements after a failed DML statement of a case are not compared",
         "errors reach the public API as text (TaskError::TaskFailed(String)); their class is read from the prefixes produced by the error enums' Display impls",
     ],
